@@ -35,6 +35,7 @@ def exotic_library(seed, idx):
     hdr = apigen.Source('/src/foo.h')
     src = apigen.Source('/src/foo.c')
     hdr.add(apigen.PRELUDE)
+    hdr.add('typedef struct _FooEarly FooEarly;\nstruct _FooEarly {\n  gint a;\n};')
     hdr.add('typedef long long FooBig;\ntypedef struct _FooSkipped FooSkipped;\nstruct _FooSkipped {\n  gint a;\n};\n'
             'typedef XyzUnknown FooHiddenAlias;\ntypedef FooSkipped *FooSkippedAlias;')
     src.add('/**\n * FooSkipped: (skip)\n *\n * Skipped.\n */\n')
@@ -61,6 +62,18 @@ def exotic_library(seed, idx):
         '  %s;\n' % apigen.decl(rng.choice([t for t in EXOTIC_TYPES if t not in ('va_list',)]), 'f%d' % k) for k in range(rng.choice([2, 4, 6]))) + '};')
     hdr.add('typedef %s (*FooExoFunc) (%s);' % (rng.choice(['void', 'long long', 'FooSkipped *']), ', '.join(
         apigen.decl(rng.choice(EXOTIC_TYPES[:10]), 'a%d' % k) for k in range(rng.choice([1, 2])))))
+    # a container declared early whose methods (declared later) use callback types that are only found out to be
+    # non-bindable while the callables are analysed: the demotion has to travel back to the container's methods
+    for k in range(rng.choice([1, 2, 3])):
+        bad = rng.choice(['long long', 'unsigned long long', 'long double', 'va_list', 'FooBig', 'gint'])
+        cbret = rng.choice(['void', 'void', 'gint', 'long long'])
+        hdr.add('typedef %s (*FooLate%dFunc) (%s, gpointer user_data);' % (cbret, k, apigen.decl(bad, 'x')))
+        owner = rng.choice(['FooEarly', 'FooEarly', 'FooExoRec', None])
+        fname = 'foo_%s_late%d' % ({'FooEarly': 'early', 'FooExoRec': 'exo_rec', None: 'free'}[owner], k)
+        params = ([(owner + ' *', 'self')] if owner else []) + [('FooLate%dFunc' % k, 'func'), ('gpointer', 'user_data')]
+        hdr.add(apigen.render_function(fname, 'void', params))
+        src.add('/**\n * %s:\n%s * @func: (scope %s): a callback\n * @user_data: data\n */\n' % (
+            fname, ' * @self: the object\n' if owner else '', rng.choice(['call', 'forever'])))
     return apigen.library(headers=[(hdr.filename, hdr.text())], sources=[(src.filename, src.text())], includes=['GObject-2.0', 'Gio-2.0', 'Dep-1.0'])
 
 
